@@ -5,9 +5,13 @@
     values), the full global state read back with [extract_global_state()] (only stored when it
     differs from the previous one), and how many attribute slots of all branches handed out so
     far hold an object that IS (Python [id()]) an object of the global state. *)
-From Coq Require Import ZArith List Bool Arith PArith.
+From Coq Require Import ZArith List Bool Arith PArith Uint63.
 Require Import JF.Base.Store JF.Model.StateHandler.
 Import ListNotations.
+
+(** A 64-bit pattern given as two 32-bit halves.  Only a fast literal syntax for the generated case
+    files (Coq parses primitive-integer literals natively; a 19-digit [Z] literal costs ~2 ms). *)
+Definition zb (hi lo : int) : Z := (Uint63.to_Z hi * 4294967296 + Uint63.to_Z lo)%Z.
 
 Fixpoint list_eqb {A} (eqb : A -> A -> bool) (a b : list A) : bool :=
   match a, b with
